@@ -199,7 +199,11 @@ LoadStateDict(part) ==
 GetFantasy ==
   /\ Room /\ Family \in {"exact", "kiss"} /\ mode = "eval" /\ ps # <<>>       \* SGPR: documented as not supported
   /\ UNCHANGED <<mode, pv, dv, ps, kern, vs, initd, updated>> /\ served' = {}
-  /\ Rec([a |-> "GetFantasy"])
+  \* the new model is an object of its own: what it denotes is fixed here - the source's parameter version and data version of
+  \* this moment plus the fantasy observations - whatever happens to the source afterwards (the machine statement, with the
+  \* rejected variant "a fantasy follows its source", is HyperOwn of Fantasy.tla; the replay observes every fantasy model of a
+  \* history once more at the end of the history and compares it with a model built from the values recorded here)
+  /\ Rec([a |-> "GetFantasy", fpv |-> pv, fdv |-> dv])
 
 \* loss.backward() through a prediction made with detach_test_caches(False): the hooks empty the strategy's memo
 Backward ==
